@@ -432,13 +432,22 @@ pub fn next_action(wd: &World, rng: &mut Rng) -> Option<Action> {
 	if ws.iter().all(|x| *x == 0) {
 		return None;
 	}
-	let kind = kinds[rng.weighted(&ws)].0;
+	let mut kind = kinds[rng.weighted(&ws)].0;
+	// a fee-estimate change only reaches the wire on a timer tick: follow it up often, so that
+	// update_fee meets whatever else is in flight (holding cell, pending revocations)
+	let mut forced_tick = None;
+	if let Some(Action::SetFee { n, .. }) = wd.trace.last() {
+		if wd.nodes[*n].live.is_some() && weight(cfg, "Tick") + weight(cfg, "SetFee") > 0 && rng.chance(1, 2) {
+			kind = "Tick";
+			forced_tick = Some(*n);
+		}
+	}
 	let pick_live = |rng: &mut Rng| *rng.pick(&live);
 	Some(match kind {
 		"Pump" => Action::Pump { n: pick_live(rng) },
 		"Drain" => Action::Drain { n: pick_live(rng) },
 		"Forward" => Action::Forward { n: pick_live(rng) },
-		"Tick" => Action::Tick { n: pick_live(rng) },
+		"Tick" => Action::Tick { n: forced_tick.unwrap_or_else(|| pick_live(rng)) },
 		"SetFee" => {
 			let rate = *rng.pick(&[253u32, 300, 500, 1000, 2000, 3000, 5000, 254]);
 			Action::SetFee { n: pick_live(rng), rate }
